@@ -2,6 +2,8 @@ package main
 
 import (
 	"encoding/hex"
+	"fmt"
+	"sort"
 	"go/token"
 	"strings"
 	"go/types"
@@ -169,6 +171,234 @@ func init() {
 				return v == nil
 			}
 			return false
+		}
+	})
+}
+
+// ---- sym.Havoc / sym.DeepEqual ----
+
+// havocWalk replaces every integer / bool leaf reachable from the value at addr (through
+// struct fields, arrays, slices, pointers and map values; strings and floats are left alone)
+// by a fresh symbol named "hv". The traversal order (field order, index order, sorted map
+// keys) is the same as the native implementation's, so replay vectors line up.
+func havocWalk(fr *frame, t types.Type, addr *value, depth int) {
+	if depth > 12 {
+		return
+	}
+	fresh := func(kind Kind, bits uint8, signed bool, gk types.BasicKind) value {
+		return mkVar(kind, bits, signed, gk)(fr, []value{"hv"})
+	}
+	switch ut := t.Underlying().(type) {
+	case *types.Basic:
+		switch ut.Kind() {
+		case types.Bool:
+			*addr = fresh(KBool, 0, false, types.Bool)
+		case types.Int, types.Int64:
+			*addr = fresh(KInt, 64, true, ut.Kind())
+		case types.Int32:
+			*addr = fresh(KInt, 32, true, ut.Kind())
+		case types.Int16:
+			*addr = fresh(KInt, 16, true, ut.Kind())
+		case types.Int8:
+			*addr = fresh(KInt, 8, true, ut.Kind())
+		case types.Uint, types.Uint64, types.Uintptr:
+			*addr = fresh(KInt, 64, false, ut.Kind())
+		case types.Uint32:
+			*addr = fresh(KInt, 32, false, ut.Kind())
+		case types.Uint16:
+			*addr = fresh(KInt, 16, false, ut.Kind())
+		case types.Uint8:
+			*addr = fresh(KInt, 8, false, ut.Kind())
+		}
+	case *types.Struct:
+		s, ok := (*addr).(structure)
+		if !ok {
+			return
+		}
+		for i := 0; i < ut.NumFields(); i++ {
+			f := ut.Field(i)
+			if f.Name() == "_" || isSyncType(f.Type()) {
+				continue
+			}
+			havocWalk(fr, f.Type(), &s[i], depth+1)
+		}
+	case *types.Array:
+		a, ok := (*addr).(array)
+		if !ok {
+			return
+		}
+		for i := range a {
+			havocWalk(fr, ut.Elem(), &a[i], depth+1)
+		}
+	case *types.Slice:
+		s, ok := (*addr).([]value)
+		if !ok {
+			return
+		}
+		if b, isB := ut.Elem().Underlying().(*types.Basic); isB && b.Kind() == types.Uint8 {
+			return // byte strings are left alone
+		}
+		for i := range s {
+			havocWalk(fr, ut.Elem(), &s[i], depth+1)
+		}
+	case *types.Pointer:
+		p, ok := (*addr).(*value)
+		if !ok || p == nil {
+			return
+		}
+		havocWalk(fr, ut.Elem(), p, depth+1)
+	case *types.Map:
+		m, ok := (*addr).(map[value]value)
+		if !ok {
+			return
+		}
+		keys := make([]string, 0, len(m))
+		byName := map[string]value{}
+		for k := range m {
+			ks := fmt.Sprint(k)
+			keys = append(keys, ks)
+			byName[ks] = k
+		}
+		sort.Strings(keys)
+		for _, ks := range keys {
+			k := byName[ks]
+			v := m[k]
+			havocWalk(fr, ut.Elem(), &v, depth+1)
+			m[k] = v
+		}
+	}
+}
+
+func isSyncType(t types.Type) bool {
+	s := t.String()
+	return strings.HasPrefix(s, "sync.") || strings.HasPrefix(s, "*sync.")
+}
+
+// deepEqualV: structural equality with nil == empty for slices and maps.
+func deepEqualV(fr *frame, t types.Type, x, y value, depth int) value {
+	if depth > 16 {
+		return true
+	}
+	switch ut := t.Underlying().(type) {
+	case *types.Basic:
+		if ut.Kind() == types.String {
+			xs, ok1 := x.(string)
+			ys, ok2 := y.(string)
+			if ok1 && ok2 {
+				return strEqValue(fr, xs, ys)
+			}
+		}
+		return symEq(t, x, y)
+	case *types.Struct:
+		xs, ok1 := x.(structure)
+		ys, ok2 := y.(structure)
+		if !ok1 || !ok2 {
+			return symEq(t, x, y)
+		}
+		var r value = true
+		for i := 0; i < ut.NumFields(); i++ {
+			f := ut.Field(i)
+			if f.Name() == "_" || isSyncType(f.Type()) {
+				continue
+			}
+			r = andV(r, deepEqualV(fr, f.Type(), xs[i], ys[i], depth+1))
+			if rb, ok := r.(bool); ok && !rb {
+				return false
+			}
+		}
+		return r
+	case *types.Array:
+		xa, ya := x.(array), y.(array)
+		var r value = true
+		for i := range xa {
+			r = andV(r, deepEqualV(fr, ut.Elem(), xa[i], ya[i], depth+1))
+		}
+		return r
+	case *types.Slice:
+		xs, _ := x.([]value)
+		ys, _ := y.([]value)
+		if len(xs) != len(ys) {
+			return false
+		}
+		var r value = true
+		for i := range xs {
+			if tx, ok := xs[i].(tok); ok {
+				ty, ok2 := ys[i].(tok)
+				if !ok2 || tx.kind != ty.kind {
+					return false
+				}
+				r = andV(r, symEq(nil, tx.v, ty.v))
+				continue
+			}
+			if bx, ok := xs[i].(binCell); ok {
+				by, ok2 := ys[i].(binCell)
+				if !ok2 {
+					return false
+				}
+				r = andV(r, deepEqualV(fr, t, bx.cells, by.cells, depth+1))
+				continue
+			}
+			r = andV(r, deepEqualV(fr, ut.Elem(), xs[i], ys[i], depth+1))
+			if rb, ok := r.(bool); ok && !rb {
+				return false
+			}
+		}
+		return r
+	case *types.Pointer:
+		xp, _ := x.(*value)
+		yp, _ := y.(*value)
+		if xp == nil || yp == nil {
+			return xp == nil && yp == nil
+		}
+		return deepEqualV(fr, ut.Elem(), *xp, *yp, depth+1)
+	case *types.Map:
+		xm, _ := x.(map[value]value)
+		ym, _ := y.(map[value]value)
+		if len(xm) != len(ym) {
+			return false
+		}
+		var r value = true
+		for k, xv := range xm {
+			yv, ok := ym[k]
+			if !ok {
+				return false
+			}
+			r = andV(r, deepEqualV(fr, ut.Elem(), xv, yv, depth+1))
+		}
+		return r
+	case *types.Interface:
+		xi, yi := x.(iface), y.(iface)
+		if xi.t == nil || yi.t == nil {
+			return xi.t == nil && yi.t == nil
+		}
+		if !types.Identical(xi.t, yi.t) {
+			return false
+		}
+		return deepEqualV(fr, xi.t, xi.v, yi.v, depth+1)
+	}
+	return symEq(t, x, y)
+}
+
+func init() {
+	extraRegs = append(extraRegs, func() {
+		externals[symPkg+".Havoc"] = func(fr *frame, args []value) value {
+			it := args[0].(iface)
+			pt, ok := it.t.Underlying().(*types.Pointer)
+			if !ok {
+				panic(unsupported("sym.Havoc needs a pointer"))
+			}
+			havocWalk(fr, pt.Elem(), it.v.(*value), 0)
+			return nil
+		}
+		externals[symPkg+".DeepEqual"] = func(fr *frame, args []value) value {
+			a, b := args[0].(iface), args[1].(iface)
+			if a.t == nil || b.t == nil {
+				return a.t == nil && b.t == nil
+			}
+			if !types.Identical(a.t, b.t) {
+				return false
+			}
+			return deepEqualV(fr, a.t, a.v, b.v, 0)
 		}
 	})
 }
